@@ -1,14 +1,19 @@
 package props
 
 import (
+	"fmt"
+
 	"go.pennock.tech/tabular"
 	"go.pennock.tech/tabular/auto"
 	"go.pennock.tech/tabular/csv"
 	"go.pennock.tech/tabular/html"
 	"go.pennock.tech/tabular/json"
 	"go.pennock.tech/tabular/markdown"
+	"go.pennock.tech/tabular/properties/align"
 	"go.pennock.tech/tabular/texttable"
 	"go.pennock.tech/tabular/texttable/decoration"
+
+	"verifharness/internal/gen"
 )
 
 // sliceOf lets the harness hold values of the library's unexported parameter
@@ -72,3 +77,41 @@ var cbTargetNames = []string{"ON_ITSELF", "ON_CELL", "ON_ROW"}
 type cbFunc func(tabular.PropertyOwner) error
 
 func (f cbFunc) UpdateProperties(o tabular.PropertyOwner) error { return f(o) }
+
+// stage describes the "render, change, render again through the same wrapper"
+// mode of the renderer checks: the wrapper is created before the table is
+// built, a first render happens after At row operations under a different
+// configuration, the build is completed, items are mutated to their final
+// state (+Update), the final configuration is put in force (withdrawing
+// settings that are unset in it), and only then the judged render is made.
+// A stale cache anywhere between the first and the judged render shows up
+// as a violation of the renderer's own property.
+type stage struct {
+	At        int
+	PreAligns []int
+	Note      string
+}
+
+// drawStage decides whether a case is staged (half of them are).
+func drawStage(r *gen.R, nrows, ncols int) *stage {
+	if !r.Chance(1, 2) {
+		return nil
+	}
+	st := &stage{At: r.Range(0, nrows), PreAligns: make([]int, ncols+1)}
+	for k := range st.PreAligns {
+		st.PreAligns[k] = r.Intn(4)
+	}
+	st.Note = fmt.Sprintf("staged: wrapper reused; first render after %d row operations under alignments %v", st.At, st.PreAligns)
+	return st
+}
+
+// setAlignsExactly puts an alignment assignment in force, clearing every column that is unset in it.
+func setAlignsExactly(t tabular.Table, a []int) {
+	for n := 0; n <= t.NColumns(); n++ {
+		var v interface{}
+		if n < len(a) && a[n] != 0 {
+			v = alignVals[a[n]]
+		}
+		t.Column(n).SetProperty(align.PropertyType, v)
+	}
+}
